@@ -95,6 +95,15 @@ struct ExecSpec {
     adds: Vec<Add>,
     /// trailing load of one word (a pure scheduling point), or none
     tail_load: Option<(u16, u8)>,
+    /// the adds are the body of a counter loop executed this many times (1 = straight line)
+    loop_n: u8,
+    /// in a loop over a single add: the source register is loaded once before the loop and grows by
+    /// this much after every add (the back edge lands on the atomic add itself); 0 = reloaded each time
+    loop_step: u32,
+    /// the adds sit in an eBPF-to-eBPF local function called from main (interpreter and JIT only)
+    in_callee: bool,
+    /// a helper that overwrites every caller-saved register is called before the adds
+    helper_first: bool,
 }
 
 #[derive(Clone, Debug)]
@@ -140,45 +149,116 @@ fn ins(opc: u8, dst: u8, src: u8, off: i16, imm: i32) -> [u8; 8] {
     [opc, (src << 4) | (dst & 0xf), o[0], o[1], i[0], i[1], i[2], i[3]]
 }
 
-fn build_program(e: &ExecSpec, region_addr: u64) -> Vec<u8> {
-    let mut v: Vec<u8> = Vec::new();
-    let mut push = |x: [u8; 8]| v.extend_from_slice(&x);
-    if e.reach == Reach::Allowed {
-        // lddw r1, region address
-        push(ins(0x18, 1, 0, 0, region_addr as u32 as i32));
-        push(ins(0, 0, 0, 0, (region_addr >> 32) as u32 as i32));
+const HELPER_KEY: u32 = 1;
+
+/// A helper that does nothing except what every C function is entitled to do: overwrite the
+/// caller-saved registers (rcx, rdx, rsi, rdi, r8-r11).
+fn noop_helper(_a: u64, _b: u64, _c: u64, _d: u64, _e: u64) -> u64 {
+    unsafe {
+        std::arch::asm!(
+            "mov rcx, 0x1111111111111111",
+            "mov rdx, rcx",
+            "mov rsi, rcx",
+            "mov rdi, rcx",
+            "mov r8, rcx",
+            "mov r9, rcx",
+            "mov r10, rcx",
+            "mov r11, rcx",
+            out("rcx") _, out("rdx") _, out("rsi") _, out("rdi") _, out("r8") _, out("r9") _, out("r10") _, out("r11") _,
+            options(nomem, nostack)
+        );
     }
-    // r6 = r1 (a second base register with a different x86 encoding)
-    push(ins(0xbf, 6, 1, 0, 0));
+    0
+}
+
+fn body_insns(e: &ExecSpec) -> Vec<[u8; 8]> {
+    let mut v: Vec<[u8; 8]> = Vec::new();
     for a in &e.adds {
         // base register = region + bias
         if a.base_reg != 1 || a.bias != 0 {
-            push(ins(0xbf, a.base_reg, 6, 0, 0));
+            v.push(ins(0xbf, a.base_reg, 6, 0, 0));
             if a.bias != 0 {
-                push(ins(0x07, a.base_reg, 0, 0, a.bias));
+                v.push(ins(0x07, a.base_reg, 0, 0, a.bias));
             }
         }
         let src_reg = if a.src_is_base { a.base_reg } else { a.src_reg };
         if a.src_is_base {
             // nothing to load: the addend is whatever the base register holds
         } else if a.via_lddw {
-            push(ins(0x18, a.src_reg, 0, 0, a.addend as u32 as i32));
-            push(ins(0, 0, 0, 0, (a.addend >> 32) as u32 as i32));
+            v.push(ins(0x18, a.src_reg, 0, 0, a.addend as u32 as i32));
+            v.push(ins(0, 0, 0, 0, (a.addend >> 32) as u32 as i32));
         } else {
-            push(ins(0xb7, a.src_reg, 0, 0, a.addend as i64 as i32));
+            v.push(ins(0xb7, a.src_reg, 0, 0, a.addend as i64 as i32));
         }
         let disp = a.off as i32 - a.bias;
-        push(ins(if a.width == 4 { 0xc3 } else { 0xdb }, a.base_reg, src_reg, disp as i16, 0));
+        v.push(ins(if a.width == 4 { 0xc3 } else { 0xdb }, a.base_reg, src_reg, disp as i16, 0));
         if a.base_reg == 1 && a.bias != 0 {
-            push(ins(0xbf, 1, 6, 0, 0));
+            v.push(ins(0xbf, 1, 6, 0, 0));
         }
     }
-    match e.tail_load {
-        Some((off, w)) => push(ins(if w == 4 { 0x61 } else { 0x79 }, 0, 6, off as i16, 0)),
-        None => push(ins(0xb7, 0, 0, 0, 0)),
+    if e.loop_n > 1 && e.loop_step > 0 && e.adds.len() == 1 && !e.adds[0].src_is_base {
+        // everything up to the atomic add runs once; the back edge targets the add itself:
+        //   <base and source set-up> ; mov r9, n ; L: xadd ; add64 src, step ; sub r9, 1 ; jne r9, 0, L
+        let a = &e.adds[0];
+        let xadd_at = v.iter().position(|i| i[0] == 0xc3 || i[0] == 0xdb).unwrap();
+        let after: Vec<[u8; 8]> = v.split_off(xadd_at + 1); // restores r1 if needed: keep it after the loop
+        let xadd = v.pop().unwrap();
+        // the counter is set up first, so that the source register is loaded right before the add
+        let mut l = vec![ins(0xb7, 9, 0, 0, e.loop_n as i32)];
+        l.extend(v);
+        l.push(xadd);
+        l.push(ins(0x07, a.src_reg, 0, 0, e.loop_step as i32));
+        l.push(ins(0x17, 9, 0, 0, 1));
+        l.push(ins(0x55, 9, 0, -4, 0));
+        l.extend(after);
+        return l;
     }
-    push(ins(0x95, 0, 0, 0, 0));
+    if e.loop_n > 1 {
+        // mov r9, n ; L: body ; sub r9, 1 ; jne r9, 0, L
+        let mut l = vec![ins(0xb7, 9, 0, 0, e.loop_n as i32)];
+        let blen = v.len() as i16;
+        l.extend(v);
+        l.push(ins(0x17, 9, 0, 0, 1));
+        l.push(ins(0x55, 9, 0, -(blen + 2), 0));
+        v = l;
+    }
     v
+}
+
+fn build_program(e: &ExecSpec, region_addr: u64) -> Vec<u8> {
+    let mut v: Vec<[u8; 8]> = Vec::new();
+    if e.reach == Reach::Allowed {
+        // lddw r1, region address
+        v.push(ins(0x18, 1, 0, 0, region_addr as u32 as i32));
+        v.push(ins(0, 0, 0, 0, (region_addr >> 32) as u32 as i32));
+    }
+    // r6 = r1 (callee-saved copy of the region address; also a base register with another encoding)
+    v.push(ins(0xbf, 6, 1, 0, 0));
+    if e.helper_first {
+        for r in 1..=5u8 {
+            v.push(ins(0xb7, r, 0, 0, r as i32));
+        }
+        v.push(ins(0x85, 0, 0, 0, HELPER_KEY as i32));
+        v.push(ins(0xbf, 1, 6, 0, 0)); // r1-r5 are undefined after a helper call
+    }
+    let body = body_insns(e);
+    let tail = match e.tail_load {
+        Some((off, w)) => ins(if w == 4 { 0x61 } else { 0x79 }, 0, 6, off as i16, 0),
+        None => ins(0xb7, 0, 0, 0, 0),
+    };
+    if e.in_callee {
+        // main: call f ; tail ; exit      f: body ; exit
+        v.push(ins(0x85, 0, 1, 0, 2));
+        v.push(tail);
+        v.push(ins(0x95, 0, 0, 0, 0));
+        v.extend(body);
+        v.push(ins(0x95, 0, 0, 0, 0));
+    } else {
+        v.extend(body);
+        v.push(tail);
+        v.push(ins(0x95, 0, 0, 0, 0));
+    }
+    v.concat()
 }
 
 impl Scenario {
@@ -208,6 +288,10 @@ impl Scenario {
                 adds.push(aj);
             }
             j["adds"] = JsonValue::Array(adds);
+            j["loop_n"] = e.loop_n.into();
+            j["loop_step"] = e.loop_step.into();
+            j["in_callee"] = e.in_callee.into();
+            j["helper_first"] = e.helper_first.into();
             j["tail_load"] = match e.tail_load {
                 Some((o, w)) => json::array![o, w],
                 None => JsonValue::Null,
@@ -246,6 +330,10 @@ impl Scenario {
                 reach: Reach::parse(e["reach"].as_str()?)?,
                 adds,
                 tail_load: if e["tail_load"].is_null() { None } else { Some((e["tail_load"][0].as_u16()?, e["tail_load"][1].as_u8()?)) },
+                loop_n: e["loop_n"].as_u8().unwrap_or(1).clamp(1, 8),
+                loop_step: e["loop_step"].as_u32().unwrap_or(0),
+                in_callee: e["in_callee"].as_bool().unwrap_or(false),
+                helper_first: e["helper_first"].as_bool().unwrap_or(false),
             });
         }
         let schedule = if v["schedule"].is_null() { None } else { Some(v["schedule"].members().map(|x| x.as_u8().unwrap_or(0)).collect()) };
@@ -365,7 +453,19 @@ fn generate(rng: &mut Rng) -> Scenario {
         } else {
             None
         };
-        execs.push(ExecSpec { engine, reach, adds, tail_load });
+        let loop_n = if rng.chance(1, 4) { rng.range(2, 4) as u8 } else { 1 };
+        if loop_n > 1 {
+            // r9 is the loop counter
+            for a in adds.iter_mut() {
+                if a.src_reg == 9 {
+                    a.src_reg = 2;
+                }
+            }
+        }
+        let in_callee = engine != Engine::Cl && rng.chance(1, 5);
+        let helper_first = rng.chance(1, 5);
+        let loop_step = if loop_n > 1 && adds.len() == 1 && !adds[0].src_is_base && aligned(&adds[0]) && rng.chance(1, 2) { rng.range(1, 1 << 20) as u32 } else { 0 };
+        execs.push(ExecSpec { engine, reach, adds, tail_load, loop_n, loop_step, in_callee, helper_first });
     }
     let strategy = match rng.below(3) {
         0 => Strategy::Uniform,
@@ -471,6 +571,7 @@ fn worker(me: usize, spec: &ExecSpec, region: (usize, usize), out: &mut ThreadOu
             Ok(match spec.reach {
                 Reach::RawPacket => {
                     let mut vm = rbpf::EbpfVmRaw::new(Some(prog))?;
+                    vm.register_helper(HELPER_KEY, noop_helper)?;
                     match spec.engine {
                         Engine::Jit => vm.jit_compile()?,
                         Engine::Cl => vm.cranelift_compile()?,
@@ -480,6 +581,7 @@ fn worker(me: usize, spec: &ExecSpec, region: (usize, usize), out: &mut ThreadOu
                 }
                 Reach::Mbuff => {
                     let mut vm = rbpf::EbpfVmMbuff::new(Some(prog))?;
+                    vm.register_helper(HELPER_KEY, noop_helper)?;
                     match spec.engine {
                         Engine::Jit => vm.jit_compile()?,
                         Engine::Cl => vm.cranelift_compile()?,
@@ -491,6 +593,7 @@ fn worker(me: usize, spec: &ExecSpec, region: (usize, usize), out: &mut ThreadOu
                     let mut vm = rbpf::EbpfVmNoData::new(Some(prog))?;
                     let a = region.0 as u64;
                     vm.register_allowed_memory(a..a + region.1 as u64);
+                    vm.register_helper(HELPER_KEY, noop_helper)?;
                     match spec.engine {
                         Engine::Jit => vm.jit_compile()?,
                         Engine::Cl => vm.cranelift_compile()?,
@@ -650,13 +753,21 @@ fn ev_desc(e: &Event) -> String {
 }
 
 /// The adds an execution is expected to carry out, in order, and whether it must end in Err.
-fn expected_writes(spec: &ExecSpec) -> (Vec<&Add>, bool) {
+fn expected_writes(spec: &ExecSpec) -> (Vec<Add>, bool) {
     let mut v = Vec::new();
-    for a in &spec.adds {
-        if !aligned(a) && spec.engine == Engine::Interp {
-            return (v, true);
+    let varying = spec.loop_n > 1 && spec.loop_step > 0 && spec.adds.len() == 1 && !spec.adds[0].src_is_base;
+    for k in 0..spec.loop_n.max(1) {
+        for a in &spec.adds {
+            if !aligned(a) && spec.engine == Engine::Interp {
+                return (v, true);
+            }
+            let mut a = a.clone();
+            if varying {
+                // the register was loaded once (mov64 sign-extends, lddw loads all 64 bits) and grows
+                a.addend = a.addend.wrapping_add(k as u64 * spec.loop_step as u64);
+            }
+            v.push(a);
         }
-        v.push(a);
     }
     (v, false)
 }
